@@ -465,6 +465,19 @@ def check_sharing(chk, rng):
         kinds.append("diff-element")
         scns.append("\n".join(lines))
         recs_of[p["id"]] = ((7, 5), (8, 6))
+    # one list, several reductions that differ only in the (scalar) function: they must stay distinct
+    for k in range(10 if chk.tier == "quick" else 120):
+        horizon = 6
+        nodes = [P.node("src", script=P.gen_script(rng, horizon, maxlen=3, values=(1, 2, 3, 5, 8))) for _ in range(3)]
+        combs = rng.sample(["lradd", "lrmin", "lrmax"], 3)
+        for c in combs:
+            nodes.append(P.node(c, ins=[1, 2, 3]))
+        nodes += [P.node("rec", ins=[4]), P.node("rec", ins=[5]), P.node("rec", ins=[6])]
+        p = P.program(9500 + k, nodes, start=1, end=horizon + 1)
+        progs.append(p)
+        kinds.append("diff-function")
+        scns.append(P.render(p, name="share%d-diff-function" % k))
+        recs_of[p["id"]] = ((7, 4), (8, 5), (9, 6))
     preds, res = dfcheck.predict(progs, tag="c06share")
     chk.add_tlc(res, "sharing")
     traces = hg.run_driver("engine", scns)
